@@ -263,6 +263,8 @@ def run_case(ctx, case):
                   list(raw_den.values()))
   if has_float and (samples == "frac" or isinstance(zspec, Fraction)):
     exact = False    # Python's float * Fraction is a (rounded) float
+  if samples == "frac" and isinstance(zspec, float):
+    exact = False    # a float zero (pre-input / default memory) + Fraction
   ctx.count("class:" + ("E" if exact else "T"))
   for i, (gv, wv) in enumerate(zip(got, want)):
     try:
